@@ -43,7 +43,10 @@ Texts == UNION {[1..n -> Sym] : n \in 1..MaxLen}
 \* ---------------------------------------------------------------- the numerical (float) forms and the boolean form
 \* [+-]? ( [0-9] | [1-9][0-9]+ ) ( . [0-9]+ )? ( [eE] [+-]? [0-9]+ )?  |  INF | -INF | NaN      value = mantissa * 10^exponent
 FSym == {"0", "1", "5", ".", "e", "-"} \cup (IF Full THEN {"E", "+"} ELSE {})
-FTokens == {<<"INF">>, <<"-INF">>, <<"NaN">>, <<"true">>, <<"false">>, <<"+INF">>, <<"TRUE">>, <<"nan">>}
+FTokens == {<<"INF">>, <<"-INF">>, <<"NaN">>, <<"true">>, <<"false">>, <<"+INF">>, <<"TRUE">>, <<"nan">>,
+            \* explicit plus signs and the capital exponent marker (in every tier)
+            <<"+", "5">>, <<"+", "0">>, <<"1", "e", "+", "5">>, <<"+", "1", ".", "5">>, <<"1", "E", "5">>, <<"1", "E", "+", "1">>, <<"-", "1", "E", "-", "1">>,
+            <<"+", "1", ".", "5", "e", "+", "1">>, <<"5", ".", "0", "E", "-", "1">>}
 FTexts == UNION {[1..n -> FSym] : n \in 1..(MaxLen + 1)} \cup FTokens
 IsD(c) == c \in {"0", "1", "5"}
 RECURSIVE DPrefix(_)
@@ -56,7 +59,7 @@ FForm(s) ==
   IF s = <<"INF">> THEN [ok |-> TRUE, v |-> FVal("inf", FALSE, 0, 0)]
   ELSE IF s = <<"-INF">> THEN [ok |-> TRUE, v |-> FVal("inf", TRUE, 0, 0)]
   ELSE IF s = <<"NaN">> THEN [ok |-> TRUE, v |-> FVal("nan", FALSE, 0, 0)]
-  ELSE IF s \in FTokens THEN FNone
+  ELSE IF s \in {<<"true">>, <<"false">>, <<"+INF">>, <<"TRUE">>, <<"nan">>} THEN FNone
   ELSE
   LET sgn == IF s # <<>> /\ s[1] \in {"+", "-"} THEN 1 ELSE 0
       neg == s # <<>> /\ s[1] = "-"
